@@ -2,6 +2,8 @@ package ssaexec
 
 import (
 	"fmt"
+	"os"
+	"sort"
 	"go/types"
 	"strings"
 
@@ -404,7 +406,40 @@ func stride(t *smt.Term, depth int) (step, phase uint64) {
 // offsetCandidates lists the concrete offsets 0..max that a symbolic offset
 // can take, pruned by a sound interval/stride analysis of the offset term.
 func (st *State) offsetCandidates(sym *smt.Term, max int) []int {
-	lo, hi := urange(sym, 0)
+	// single byte variable: the exact value set over its domain
+	if ids, small := sym.Supp(); small && len(ids) == 1 {
+		if v := st.c.TermByID(ids[0]); v.W == 8 {
+			dom := st.domains[v.ID]
+			seen := map[int]bool{}
+			var out []int
+			var cur uint64
+			env := func(*smt.Term) uint64 { return cur }
+			okAll := true
+			for x := 0; x < 256 && okAll; x++ {
+				if dom != nil && dom[x>>6]&(1<<(uint(x)&63)) == 0 {
+					continue
+				}
+				cur = uint64(x)
+				r, ok := st.c.Eval(sym, env)
+				if !ok {
+					okAll = false
+					break
+				}
+				if r <= uint64(max) && !seen[int(r)] {
+					seen[int(r)] = true
+					out = append(out, int(r))
+				}
+			}
+			if okAll {
+				if len(out) == 0 {
+					st.end("INFEASIBLE", "no candidate offset")
+				}
+				sort.Ints(out)
+				return out
+			}
+		}
+	}
+	lo, hi := urangeD(sym, 0, st.domains)
 	step, phase := stride(sym, 0)
 	if step == 0 {
 		step, phase = 1, 0
@@ -624,9 +659,76 @@ func abbrev(s string) string {
 // concreteLen requires a concrete length term.
 func (st *State) concreteInt(t *smt.Term, what string) int {
 	if !t.IsConst() {
-		st.end("UNSUPPORTED", "symbolic %s: %v", what, t)
+		t = st.concretize(t, what)
 	}
 	return int(int64(t.V))
+}
+
+// concretize forks on the value of a symbolic integer that the engine needs
+// concretely (a length, a capacity): one decision per feasible value.
+func (st *State) concretize(t *smt.Term, what string) *smt.Term {
+	if st.w.Opt.IsConcrete || st.lenient {
+		st.end("UNSUPPORTED", "symbolic %s: %v", what, t)
+	}
+	nt := st.simplifyUnderDomains(t, map[uint32]*smt.Term{}, 0)
+	if nt.IsConst() {
+		return nt
+	}
+	t = nt
+	if ids, small := t.Supp(); small && len(ids) == 1 {
+		v := st.c.TermByID(ids[0])
+		if v.W == 8 {
+			dom := st.domains[v.ID]
+			seen := map[uint64]bool{}
+			var vals []uint64
+			var cur uint64
+			env := func(*smt.Term) uint64 { return cur }
+			for x := 0; x < 256; x++ {
+				if dom != nil && dom[x>>6]&(1<<(uint(x)&63)) == 0 {
+					continue
+				}
+				cur = uint64(x)
+				r, ok := st.c.Eval(t, env)
+				if !ok {
+					st.end("UNSUPPORTED", "symbolic %s: %v", what, t)
+				}
+				if !seen[r] {
+					seen[r] = true
+					vals = append(vals, r)
+				}
+			}
+			if len(vals) > 64 {
+				st.end("UNSUPPORTED", "symbolic %s with %d possible values", what, len(vals))
+			}
+			for i, val := range vals {
+				k := st.c.Const(val, t.W)
+				if i == len(vals)-1 || st.branch(st.c.Eq(t, k), "concretize") {
+					return k
+				}
+			}
+		}
+	}
+	// general case: enumerate models
+	if os.Getenv("GOSYM_TRACE") != "" {
+		ids, small := t.Supp()
+		fmt.Fprintf(os.Stderr, "CONCRETIZE-GENERAL %s supp=%v small=%v: %v\n", what, ids, small, t)
+	}
+	for n := 0; n < 64; n++ {
+		r, m := st.model()
+		if r != smt.Sat {
+			st.end("UNSUPPORTED", "symbolic %s: cannot enumerate values", what)
+		}
+		val, ok := st.c.Eval(t, func(v *smt.Term) uint64 { return m[v.Name] })
+		if !ok {
+			st.end("UNSUPPORTED", "symbolic %s: %v", what, t)
+		}
+		k := st.c.Const(val, t.W)
+		if st.branch(st.c.Eq(t, k), "concretize") {
+			return k
+		}
+	}
+	st.end("UNSUPPORTED", "symbolic %s with more than 64 values", what)
+	return nil
 }
 
 // stringBytes returns the byte terms of a string/slice-of-bytes value with
